@@ -57,9 +57,35 @@ pub struct World {
     pub warm_calls: Vec<(u8, Id)>,
     pub normalise_config_id: bool,
     pub fail_at: Option<usize>, // e2e: the n-th inner mutating call (1-based) fails without effect
+    /// warm-up by access (archive tier with restore-on-access): a rejected read warms the file, the
+    /// explicit warm_up call of the store does nothing and the store does not ask for warm-up itself
+    pub access_warms: bool,
+    /// warm-up by command: the file the warm-up command appends `<tpe>/<id>` lines to; only those are warm
+    pub warm_file: Option<std::path::PathBuf>,
 }
 
 impl World {
+    pub fn is_warm(&self, k: &(u8, Id)) -> bool {
+        match &self.warm_file {
+            None => self.warm.contains(k),
+            Some(f) => {
+                let txt = std::fs::read_to_string(f).unwrap_or_default();
+                let tpe = FTS[k.0 as usize].to_string();
+                if k.0 == 0 {
+                    txt.lines().any(|l| l.starts_with(&format!("{tpe}/")))
+                } else {
+                    let want = format!("{tpe}/{}", k.1.to_hex().as_str());
+                    txt.lines().any(|l| l == want)
+                }
+            }
+        }
+    }
+    pub fn cool_down(&mut self) {
+        self.warm.clear();
+        if let Some(f) = &self.warm_file {
+            let _ = std::fs::write(f, b"");
+        }
+    }
     pub fn dump(&self) -> String {
         let side = |m: &BTreeMap<(u8, Id), Bytes>| {
             m.iter().map(|((ft, id), b)| format!("{}:{}:{}", ft, id_to_u64(id), hex::encode(b))).collect::<Vec<_>>().join(",")
@@ -93,10 +119,13 @@ impl MemBe {
     }
     fn check_warm(&self, w: &mut World, k: (u8, Id)) -> RusticResult<()> {
         if !self.hot {
-            let warm = w.warm.contains(&k);
+            let warm = w.is_warm(&k);
             w.cold_reads.push((k.0, k.1, warm));
             if w.cold_rejects_unwarmed && !warm {
                 w.unwarmed_reads.push(k);
+                if w.access_warms {
+                    let _ = w.warm.insert(k);
+                }
                 return Err(err("file is not warmed-up"));
             }
         }
@@ -131,14 +160,17 @@ impl ReadBackend for MemBe {
         Ok(b.slice(o..o + l))
     }
     fn needs_warm_up(&self) -> bool {
-        !self.hot && self.w.lock().unwrap().cold_rejects_unwarmed
+        let w = self.w.lock().unwrap();
+        !self.hot && w.cold_rejects_unwarmed && !w.access_warms && w.warm_file.is_none()
     }
     fn warm_up(&self, tpe: FileType, id: &Id) -> RusticResult<()> {
         let mut w = self.w.lock().unwrap();
         let k = self.key(&w, tpe, id);
         if !self.hot {
             w.warm_calls.push(k);
-            let _ = w.warm.insert(k);
+            if !w.access_warms && w.warm_file.is_none() {
+                let _ = w.warm.insert(k);
+            }
         }
         Ok(())
     }
@@ -260,11 +292,12 @@ fn ops_case(line: &str) -> String {
 }
 
 // ------------------------------------------------------------------------------ e2e
-// Case line: `seed rejects nsteps step* dmg_p dmg_cfg trunc fail_at`
+// Case line: `seed rejects nsteps step* dmg_p dmg_cfg trunc fail_at [wmode]`   (wmode: see new_env)
 //   rejects: 1 = the cold store rejects reads of files that were not warmed up first
 //   step: 0 v   backup of source variant v
 //         1 k   forget the k-th live snapshot (mod count)
-//         2 m   prune (m = 0: instant delete, max-unused 0; m = 1: mark only, then delete with keep-delete 0)
+//         2 m   prune (m = 0: instant delete, max-unused 0; m = 1: mark only, then delete with keep-delete 0;
+//               m = 2: mark only with the default keep-delete, the marked packs stay)
 //         3 c   config change (compression level c)
 //         4     check
 //         5     restore the latest snapshot and compare with its source
@@ -293,17 +326,30 @@ struct Env {
     live: Vec<u64>, // variants of the live snapshots in time order
 }
 
-fn new_env(hotcold: bool, rejects: bool) -> Env {
-    let w = Arc::new(Mutex::new(World { normalise_config_id: true, cold_rejects_unwarmed: rejects && hotcold, ..World::default() }));
+/// wmode 0: the cold store has a warm-up call of its own (`ReadBackend::warm_up`), repository options default;
+/// wmode 1: warm-up by access - `RepositoryOptions::warm_up(true)` (the library's WarmUpAccessBackend), the cold
+///          store rejects the first read of a file and is warm afterwards;
+/// wmode 2: warm-up by command - `RepositoryOptions::warm_up_command("sh -c 'echo %tpe/%id >> FILE'")`, the cold
+///          store serves only files listed in FILE.
+fn new_env(hotcold: bool, rejects: bool, wmode: u64, tmp: &Path) -> Env {
+    let rejects = rejects && hotcold;
+    let mut world = World { normalise_config_id: true, cold_rejects_unwarmed: rejects, ..World::default() };
+    let mut opts = RepositoryOptions::default().no_cache(true);
+    if rejects && wmode == 1 {
+        world.access_warms = true;
+        opts = opts.warm_up(true);
+    }
+    if rejects && wmode == 2 {
+        let f = tmp.join("warm.txt");
+        std::fs::write(&f, b"").unwrap();
+        let cmd = format!("sh -c 'echo %tpe/%id >> {}'", f.to_str().unwrap());
+        opts = opts.warm_up_command(cmd.parse::<rustic_core::CommandInput>().expect("warm-up command"));
+        world.warm_file = Some(f);
+    }
+    let w = Arc::new(Mutex::new(world));
     let cold: Arc<dyn WriteBackend> = Arc::new(MemBe { w: w.clone(), hot: false });
     let hot: Option<Arc<dyn WriteBackend>> = if hotcold { Some(Arc::new(MemBe { w: w.clone(), hot: true })) } else { None };
-    Env {
-        w,
-        bes: RepositoryBackends::new(cold, hot),
-        opts: RepositoryOptions::default().no_cache(true),
-        creds: Credentials::password("pw"),
-        live: vec![],
-    }
+    Env { w, bes: RepositoryBackends::new(cold, hot), opts, creds: Credentials::password("pw"), live: vec![] }
 }
 
 fn open(e: &Env) -> RusticResult<Repository<OpenStatus>> {
@@ -352,7 +398,7 @@ fn res_str<T>(r: &RusticResult<T>) -> String {
 }
 
 fn do_step(e: &mut Env, tmp: &Path, step: &[u64]) -> String {
-    e.w.lock().unwrap().warm.clear(); // every command starts with a cold cold store
+    e.w.lock().unwrap().cool_down(); // every command starts with a cold cold store
     let r: RusticResult<String> = (|| {
         match step[0] {
             0 => {
@@ -382,15 +428,19 @@ fn do_step(e: &mut Env, tmp: &Path, step: &[u64]) -> String {
             2 => {
                 let repo = open(e)?;
                 let instant = step[1] == 0;
-                let po = PruneOptions::default()
+                let mut po = PruneOptions::default()
                     .instant_delete(instant)
                     .max_unused(LimitOption::Percentage(0))
-                    .keep_delete(rustic_core::jiff::Span::default())
                     .keep_pack(rustic_core::jiff::Span::default());
+                if step[1] != 2 {
+                    // mode 2 keeps the default keep-delete (23h): unused packs are only MARKED in the index
+                    // (section packs_to_delete) and stay in both stores
+                    po = po.keep_delete(rustic_core::jiff::Span::default());
+                }
                 let plan = repo.prune_plan(&po)?;
                 repo.prune(&po, plan)?;
-                if !instant {
-                    e.w.lock().unwrap().warm.clear();
+                if step[1] == 1 {
+                    e.w.lock().unwrap().cool_down();
                     let repo = open(e)?;
                     let plan = repo.prune_plan(&po)?;
                     repo.prune(&po, plan)?;
@@ -545,10 +595,11 @@ fn e2e_case(line: &str) -> String {
     }
     let (dmg_p, dmg_cfg, trunc) = (t.u(), t.u() == 1, t.u() == 1);
     let fail_at = t.u() as usize;
+    let wmode: u64 = t.opt_s().map(|x| x.parse().expect("wmode")).unwrap_or(0);
     let tmp = tempfile::tempdir().unwrap();
     let mut out = serde_json::Map::new();
-    let mut hc = new_env(true, rejects);
-    let mut single = new_env(false, false);
+    let mut hc = new_env(true, rejects, wmode, tmp.path());
+    let mut single = new_env(false, false, 0, tmp.path());
     let mut step_res = vec![];
     for (name, e) in [("hc", &mut hc), ("single", &mut single)] {
         let r = Repository::new(&e.opts, &e.bes).and_then(|r| r.init(&e.creds, &KeyOptions::default(), &ConfigOptions::default()));
@@ -630,17 +681,29 @@ fn e2e_case(line: &str) -> String {
     };
     let _ = out.insert("tp_flags".into(), tp_flags.into());
     let _ = out.insert("state_before_repair".into(), before.into());
-    hc.w.lock().unwrap().warm.clear();
+    hc.w.lock().unwrap().cool_down();
     let dmg_len = hc.w.lock().unwrap().log.len();
     let _ = out.insert("dmg_len".into(), dmg_len.into());
     let unw0 = hc.w.lock().unwrap().unwarmed_reads.len();
     let mut tp_index: Option<BTreeSet<Id>> = None;
+    let mut index_entries: Option<Vec<(u8, Id, bool)>> = None;
     let rep: RusticResult<String> = (|| {
         let repo = Repository::new(&hc.opts, &hc.bes)?.open_only_cold(&Credentials::password("pw"))?;
         repo.init_hot()?;
         repo.repair_hotcold_except_packs(false)?;
         let repo = open(&hc)?;
         tp_index = Some(rustic_core::verif_hooks::c16::tree_packs(&repo)?);
+        // independently of get_tree_packs: every pack the index files name, with its section and blob type
+        let mut es = vec![];
+        for f in repo.stream_files::<rustic_core::repofile::IndexFile>()? {
+            let (_, ix) = f?;
+            for (sec, ps) in [(0u8, &ix.packs), (1u8, &ix.packs_to_delete)] {
+                for p in ps {
+                    es.push((sec, p.id.into_inner(), p.blob_type() == rustic_core::repofile::BlobType::Tree));
+                }
+            }
+        }
+        index_entries = Some(es);
         repo.repair_hotcold_packs(false)?;
         let c = repo.check(CheckOptions::default())?;
         Ok(match c.is_ok() {
@@ -659,10 +722,18 @@ fn e2e_case(line: &str) -> String {
             }
             None => trees.clone(),
         };
-        let mut rl: Vec<String> = vec![tp.len().to_string()];
-        rl.extend(tp.iter().map(|x| x.to_string()));
+        // index entries (section, id, is_tree); without a readable index: what the cacheable flags say
+        let mut es: Vec<(u8, u64, bool)> = match &index_entries {
+            Some(v) => v.iter().map(|(s, i, t)| (*s, ids.get(i), *t)).collect(),
+            None => trees.iter().map(|t| (0, *t, true)).collect(),
+        };
+        es.sort();
+        let mut rl: Vec<String> = vec![es.len().to_string()];
+        rl.extend(es.iter().map(|(s, i, t)| format!("{s} {i} {}", *t as u8)));
         rl.extend(rl_state.iter().cloned());
         let _ = out.insert("repair_in".into(), rl.join(" ").into());
+        let _ = out.insert("index_entries".into(), serde_json::json!(es));
+        let _ = out.insert("index_read".into(), index_entries.is_some().into());
         let _ = out.insert("tp_index".into(), tp.into());
     }
     let _ = out.insert("unwarmed_reads_repair".into(), (hc.w.lock().unwrap().unwarmed_reads.len() - unw0).into());
